@@ -593,7 +593,24 @@ func (e *Enc) ret(x *ssa.Return, st *State) {
 			if len(cj) > 1 {
 				label = fmt.Sprintf("#%d.%d %s", k+1, j+1, exprString(cx))
 			}
-			e.oblige("post", label, en.Tags, c.evalBool(cx), x.Pos())
+			// a clause naming a local of the function is checked at the returns where that local is defined
+			cond, ok := func() (t Term, ok bool) {
+				defer func() {
+					if r := recover(); r != nil {
+						if ee, isE := r.(evalError); isE && strings.HasPrefix(ee.msg, "unknown identifier") {
+							ok = false
+							return
+						}
+						panic(r)
+					}
+				}()
+				return c.evalBool(cx), true
+			}()
+			e.noteClause("ensures "+label, ok)
+			if !ok {
+				continue
+			}
+			e.oblige("post", label, en.Tags, cond, x.Pos())
 		}
 	}
 	_ = strings.TrimSpace
